@@ -33,7 +33,9 @@ def spec_mutants(work):
     # the known finding F11 is a property of the design: TLC finds it in the model
     src = os.path.join(VERIF, "spec", "mc", "coopnet")
     for cfg, expect in (("MC_coopnet.cfg", False), ("MC_coopnet_f11.cfg", True),
-                        ("MC_coopnet_pq.cfg", False), ("MC_coopnet_pf11.cfg", True)):
+                        ("MC_coopnet_pq.cfg", False), ("MC_coopnet_pf11.cfg", True),
+                        ("MC_coopnet_slow.cfg", False), ("MC_coopnet_sf11.cfg", True),
+                        ("MC_coopnet_top.cfg", False)):
         wd = os.path.join(work, cfg)
         shutil.copytree(src, wd)
         rc, out, wall = runner.tlc(wd, "MC_coopnet", cfg=cfg, workers="8")
